@@ -506,4 +506,175 @@ theorem biIntervalOf_of_biOf (T sa P : List Nat) (iv : Bi) (hperm : sa.Perm (Lis
   · simp only [Nat.add_sub_cancel_left]; omega
   · simp only [Nat.add_sub_cancel_left]; omega
 
+/-! ### `init_interval_with` -/
+
+theorem lessRef_succ (bwt : List Nat) (a : Nat) : lessRef bwt (a + 1) = lessRef bwt a + bwt.count a := by
+  unfold lessRef
+  rw [List.count_eq_countP]
+  induction bwt with
+  | nil => simp
+  | cons x l ih =>
+    simp only [List.countP_cons, ih, decide_eq_true_eq, beq_iff_eq]
+    by_cases h1 : x < a
+    · have : x < a + 1 := by omega
+      have h2 : ¬ x = a := by omega
+      simp [h1, this, h2]; omega
+    · by_cases h2 : x = a
+      · subst h2; simp; omega
+      · have : ¬ x < a + 1 := by omega
+        simp [h1, this, h2]
+
+/-- the rows whose suffix starts with the single symbol `a` -/
+theorem ivOf_single (t sa : List Nat) (a : Nat) (hs : Sorted t sa a) :
+    IvOf t sa [a] (lessRef (bwtOf t sa) a) (lessRef (bwtOf t sa) a + (bwtOf t sa).count a) := by
+  have hperm := hs.perm
+  have h0 : IvOf t sa [] 0 sa.length := ivOf_nil t sa (fun row hrow => Nat.le_of_lt (sa_lt hperm row hrow))
+  have := ivOf_step hs [] 0 sa.length h0
+  have e0 : occLt (bwtOf t sa) 0 a = 0 := by simp [occLt]
+  have e1 : occLt (bwtOf t sa) sa.length a = (bwtOf t sa).count a := by
+    unfold occLt
+    rw [List.take_of_length_le (by simp [bwtOf])]
+  rw [e0, e1] at this
+  simpa using this
+
+theorem count_compl_map (l : List Nat) (a : Nat) : (l.map dnaCompl).count (dnaCompl a) = l.count a := by
+  rw [List.count_eq_countP, List.countP_map, List.count_eq_countP]
+  apply List.countP_congr
+  intro x _
+  simp only [Function.comp, beq_iff_eq]
+  constructor
+  · intro h; have := congrArg dnaCompl h; simpa [dnaCompl_invol] using this
+  · intro h; rw [h]
+
+theorem count_revcomp (l : List Nat) (a : Nat) : (revcomp l).count (dnaCompl a) = l.count a := by
+  unfold revcomp
+  rw [count_compl_map, List.count_reverse]
+
+theorem count_fmdText (seqs : List (List Nat)) (c : Nat) :
+    (fmdText seqs).count c = (seqs.map (fun s => (block s).count c)).sum := by
+  induction seqs with
+  | nil => simp [fmdText]
+  | cons s rest ih => rw [fmdText_cons, List.count_append, ih]; simp
+
+/-- single symbols: a DNA symbol and its complement are equally frequent in an FMD text -/
+theorem count_symmetry (seqs : List (List Nat)) (a : Nat) (ha : a ≠ 36) :
+    (fmdText seqs).count (dnaCompl a) = (fmdText seqs).count a := by
+  have hc : dnaCompl a ≠ 36 := fun h => ha (dnaCompl_eq_sentinel a h)
+  have h1 : (revcomp (fmdText seqs) ++ [36]).count (dnaCompl a) = (fmdText seqs).count a := by
+    rw [List.count_append, count_revcomp]
+    simp [List.count_singleton, Ne.symm hc]
+  rw [revcomp_fmdText, List.count_cons] at h1
+  have h36 : ((36 : Nat) == dnaCompl a) = false := by simp [Ne.symm hc]
+  rw [h36] at h1
+  simp only [Bool.false_eq_true, if_false, Nat.add_zero] at h1
+  rw [← h1, count_fmdText, count_fmdText, List.map_reverse, List.sum_reverse]
+
+theorem count_bwt (t sa : List Nat) (hperm : sa.Perm (List.range t.length)) (c : Nat) :
+    (bwtOf t sa).count c = t.count c := by
+  unfold bwtOf
+  rw [List.count_eq_countP, List.countP_map, hperm.countP_eq]
+  have h := countP_bwSym t (fun x => x == c)
+  simp only [Function.comp_def] at h ⊢
+  rw [h]
+  -- counting over positions = counting over the list
+  have : (List.range t.length).map (fun p => t.getD p 0) = t := by
+    apply List.ext_getElem?
+    intro k
+    rw [List.getElem?_map]
+    by_cases hk : k < t.length
+    · simp [List.getElem?_range hk, List.getD_eq_getElem?_getD, List.getElem?_eq_getElem hk]
+    · have h1 : (List.range t.length)[k]? = none := List.getElem?_eq_none (by simp; omega)
+      have h2 : t[k]? = none := List.getElem?_eq_none (by omega)
+      simp [h1, h2]
+  conv => rhs; rw [← this, List.count_eq_countP, List.countP_map]
+  rfl
+
+/-- **`init_interval_with(a)` is the bi-interval of the one-symbol string `a`** -/
+theorem initIntervalWith_correct (seqs : List (List Nat)) (sa : List Nat) (a : Nat)
+    (hne : seqs ≠ []) (hchk : sortedAllB (fmdText seqs) sa = true) (ha : isDna a = true) :
+    BiOf (fmdText seqs) sa [a] (initIntervalWith (lessRef (bwtOf (fmdText seqs) sa)) a) := by
+  obtain ⟨_, ha36, hca⟩ := order_mem_of_dna a ha
+  obtain ⟨_, hca36, _⟩ := order_mem_of_dna _ hca
+  have hlast := fmd_last seqs hne
+  have hperm : sa.Perm (List.range (fmdText seqs).length) := by
+    simp only [sortedAllB, Bool.and_eq_true] at hchk
+    exact List.isPerm_iff.mp hchk.1
+  have hs : Sorted (fmdText seqs) sa a := sortedAllB_sound _ sa hchk a (by rw [hlast]; exact Ne.symm ha36)
+  have hs' : Sorted (fmdText seqs) sa (dnaCompl a) :=
+    sortedAllB_sound _ sa hchk _ (by rw [hlast]; exact Ne.symm hca36)
+  have hsize : (initIntervalWith (lessRef (bwtOf (fmdText seqs) sa)) a).size = (bwtOf (fmdText seqs) sa).count a := by
+    simp only [initIntervalWith, lessRef_succ]; omega
+  have hcnt : (bwtOf (fmdText seqs) sa).count (dnaCompl a) = (bwtOf (fmdText seqs) sa).count a := by
+    rw [count_bwt _ _ hperm, count_bwt _ _ hperm, count_symmetry seqs a ha36]
+  constructor
+  · rw [hsize]; exact ivOf_single _ sa a hs
+  · have : revcomp [a] = [dnaCompl a] := by simp [revcomp]
+    rw [this, hsize, ← hcnt]
+    exact ivOf_single _ sa (dnaCompl a) hs'
+
+/-! ### growing a substring of a pattern symbol by symbol (what `smems` and the harness chains do) -/
+
+theorem sub_snoc (w : List Nat) (lo k : Nat) (h : lo + k < w.length) :
+    sub w lo (k + 1) = sub w lo k ++ [w.getD (lo + k) 0] := by
+  unfold sub
+  have hk : k < (w.drop lo).length := by simp; omega
+  rw [List.take_succ_eq_append_getElem hk, List.getElem_drop]
+  simp [List.getD_eq_getElem?_getD, List.getElem?_eq_getElem h]
+
+theorem sub_cons (w : List Nat) (lo k : Nat) (h1 : 1 ≤ lo) (h2 : lo - 1 < w.length) :
+    sub w (lo - 1) (k + 1) = w.getD (lo - 1) 0 :: sub w lo k := by
+  unfold sub
+  rw [List.drop_eq_getElem_cons h2, List.take_succ_cons]
+  have : lo - 1 + 1 = lo := by omega
+  rw [this]
+  simp [List.getD_eq_getElem?_getD, List.getElem?_eq_getElem h2]
+
+theorem sub_ne_nil (w : List Nat) (lo k : Nat) (hk : 0 < k) (h : lo < w.length) : sub w lo k ≠ [] := by
+  intro he
+  have := congrArg List.length he
+  simp only [sub, List.length_take, List.length_drop, List.length_nil] at this
+  omega
+
+theorem sub_dna (w : List Nat) (lo k : Nat) (hw : ∀ c ∈ w, isDna c = true) : ∀ q ∈ sub w lo k, isDna q = true := by
+  intro q hq
+  exact hw q ((List.drop_sublist lo w).subset ((List.take_sublist k _).subset hq))
+
+/-- one forward step of a chain: from the bi-interval of `w[lo..hi)` to that of `w[lo..hi+1)` -/
+theorem chain_step_forward (seqs : List (List Nat)) (sa w : List Nat) (iv : Bi) (lo hi : Nat)
+    (hne : seqs ≠ []) (hseqs : ∀ s ∈ seqs, ∀ c ∈ s, isDna c = true)
+    (hchk : sortedAllB (fmdText seqs) sa = true) (hw : ∀ c ∈ w, isDna c = true)
+    (hlh : lo < hi) (hhi : hi < w.length)
+    (hbi : BiOf (fmdText seqs) sa (sub w lo (hi - lo)) iv) (hpos : 0 < iv.size) :
+    BiOf (fmdText seqs) sa (sub w lo (hi + 1 - lo))
+      (forwardExt (lessRef (bwtOf (fmdText seqs) sa)) (occRef (bwtOf (fmdText seqs) sa)) iv (w.getD hi 0)) := by
+  have e : hi + 1 - lo = (hi - lo) + 1 := by omega
+  have e2 : lo + (hi - lo) = hi := by omega
+  rw [e, sub_snoc w lo (hi - lo) (by omega), e2]
+  exact forwardExt_correct seqs sa _ iv _ hne hseqs hchk (sub_ne_nil w lo _ (by omega) (by omega))
+    (sub_dna w lo _ hw) (hw _ (getD_mem w hi hhi)) hbi hpos
+
+/-- one backward step of a chain: from the bi-interval of `w[lo..hi)` to that of `w[lo-1..hi)` -/
+theorem chain_step_backward (seqs : List (List Nat)) (sa w : List Nat) (iv : Bi) (lo hi : Nat)
+    (hne : seqs ≠ []) (hseqs : ∀ s ∈ seqs, ∀ c ∈ s, isDna c = true)
+    (hchk : sortedAllB (fmdText seqs) sa = true) (hw : ∀ c ∈ w, isDna c = true)
+    (hlo : 1 ≤ lo) (hlh : lo < hi) (hhi : hi ≤ w.length)
+    (hbi : BiOf (fmdText seqs) sa (sub w lo (hi - lo)) iv) (hpos : 0 < iv.size) :
+    BiOf (fmdText seqs) sa (sub w (lo - 1) (hi - (lo - 1)))
+      (backwardExt (lessRef (bwtOf (fmdText seqs) sa)) (occRef (bwtOf (fmdText seqs) sa)) iv (w.getD (lo - 1) 0)) := by
+  have e : hi - (lo - 1) = (hi - lo) + 1 := by omega
+  rw [e, sub_cons w lo (hi - lo) hlo (by omega)]
+  exact backwardExt_correct seqs sa _ iv _ hne hseqs hchk (sub_ne_nil w lo _ (by omega) (by omega))
+    (sub_dna w lo _ hw) (hw _ (getD_mem w (lo - 1) (by omega))) hbi hpos
+
+/-- start of a chain: `init_interval_with(w[j])` is the bi-interval of `w[j..j+1)` -/
+theorem chain_start (seqs : List (List Nat)) (sa w : List Nat) (j : Nat)
+    (hne : seqs ≠ []) (hchk : sortedAllB (fmdText seqs) sa = true) (hw : ∀ c ∈ w, isDna c = true)
+    (hj : j < w.length) :
+    BiOf (fmdText seqs) sa (sub w j (j + 1 - j))
+      (initIntervalWith (lessRef (bwtOf (fmdText seqs) sa)) (w.getD j 0)) := by
+  have e : j + 1 - j = 0 + 1 := by omega
+  rw [e, sub_snoc w j 0 (by omega)]
+  simp only [sub, List.take_zero, List.nil_append, Nat.add_zero]
+  exact initIntervalWith_correct seqs sa _ hne hchk (hw _ (getD_mem w j hj))
+
 end RbV.FMDSym
